@@ -377,10 +377,10 @@ class NodeSpec(CaseSpec):
     def cases(self, tier, rng):
         if tier == "thorough":
             ex = nc.gen_exhaustive(self.cls, 3, 4) + nc.gen_exhaustive(self.cls, 2, 6, prefix="y")
-            rnd = nc.gen_random(self.cls, rng, 12000) + nc.gen_hub(self.cls, rng, 60)
+            rnd = nc.gen_random(self.cls, rng, 12000) + nc.gen_hub(self.cls, rng, 60) + nc.gen_thin(self.cls, rng, 80)
         else:
             ex = nc.gen_exhaustive(self.cls, 3, 3)[::2] + nc.gen_exhaustive(self.cls, 3, 2) + nc.gen_exhaustive(self.cls, 2, 3, prefix="y")
-            rnd = nc.gen_random(self.cls, rng, 200, minlen=60, maxlen=250) + nc.gen_hub(self.cls, rng, 4)
+            rnd = nc.gen_random(self.cls, rng, 200, minlen=60, maxlen=250) + nc.gen_hub(self.cls, rng, 4) + nc.gen_thin(self.cls, rng, 6)
         return ex + rnd
 
     def exhaustive(self, tier):
